@@ -25,10 +25,14 @@ ASSUMPTIONS = ['loads are percentages summed per node over all instances of the 
                'node load including pending requests (statement of C04)']
 FLOORS = {'quick': {'choice_comparisons': 20000, 'nontrivial_choices': 5000, 'application_runs': 1500,
                     'single_instance_runs': 300, 'single_node_runs': 300,
-                    'single_node_instance_choices_nontrivial': 300, 'peers_identified_again': 200},
+                    'single_node_instance_choices_nontrivial': 300, 'peers_identified_again': 200,
+                    'processes_added_to_a_job_in_progress': 800,
+                    'added_processes_whose_own_rule_excludes_the_place': 150},
           'thorough': {'choice_comparisons': 600000, 'nontrivial_choices': 150000, 'application_runs': 40000,
                        'single_instance_runs': 9000, 'single_node_runs': 9000,
-                       'single_node_instance_choices_nontrivial': 8000, 'peers_identified_again': 6000}}
+                       'single_node_instance_choices_nontrivial': 8000, 'peers_identified_again': 6000,
+                       'processes_added_to_a_job_in_progress': 20000,
+                       'added_processes_whose_own_rule_excludes_the_place': 4000}}
 ROUNDS = {'quick': 60, 'thorough': 900}   # load tables per case; each table = 20 choices + 3 application runs
 CASES = {'quick': 32, 'thorough': 64}
 
